@@ -1,4 +1,5 @@
 import XtModel.Lemmas.CliRunEpipe
+import XtModel.Lemmas.CliOk
 import XtModel.Props.C13
 
 /-!
@@ -20,7 +21,7 @@ output does not go through the wrapper and ignores write errors
 (`C13.help_write_errors_ignored`).
 
 Obligations: `broken_pipe_never_returned`, `wrapper_outermost`, `cli_epipe_outcome`,
-`cli_other_write_error`.
+`cli_other_write_error`, `exit0_nothing_missing`.
 -/
 namespace Xt.Props.C16
 open Xt.Cli
@@ -133,6 +134,22 @@ theorem cli_other_write_error (w : World) (hflush : w.perInputFlush = true) (arg
   have h1 := hf.2 herr
   exact ⟨h1, (C13.exit_code_spec w args).2.2.2.2.1 h1⟩
 
+/-- **Never status 0 with output missing** — for every descriptor behaviour: a
+translating run that ends with status 0 has delivered to standard output
+exactly the concatenated library output of one call per input. -/
+theorem exit0_nothing_missing (w : World) (hflush : w.perInputFlush = true) (args : List Str)
+    (paths : List Str) (cf : Option Fmt) (to : Fmt) (hp : parseArgs args = .ok paths cf to)
+    (h0 : (run w args).exit = .code 0) :
+    (run w args).stdout = libOutput w (run w args).calls ∧
+    (run w args).calls.map (·.1) = inputPaths paths := by
+  have hg : ¬ (w.isTty = true ∧ unsafeForTerminal to = true) := by
+    intro hg; simp [run, hp, hg, exitWith] at h0
+  have hr : run w args = mainLoop w cf to (inputPaths paths) LoopSt.init := by
+    simp only [run, hp, hg, if_false]
+  rw [hr] at h0 ⊢
+  obtain ⟨a, _, c⟩ := mainLoop_exit0_any w hflush cf to (inputPaths paths) h0
+  exact ⟨a, c⟩
+
 /-! ## Non-vacuity -/
 
 /-- A descriptor that accepts 5 bytes and then answers `e`; a library that
@@ -158,5 +175,6 @@ example : checkForBrokenPipe (.ok 3 : IoR Nat) = .returned (.ok 3) := rfl
 #print axioms wrapper_outermost
 #print axioms cli_epipe_outcome
 #print axioms cli_other_write_error
+#print axioms exit0_nothing_missing
 
 end Xt.Props.C16
